@@ -14,6 +14,7 @@ import (
 	"github.com/caddyserver/caddy/v2/caddyconfig"
 	_ "github.com/caddyserver/caddy/v2/caddyconfig/httpcaddyfile" // the adapter under test
 	"github.com/caddyserver/caddy/v2/modules/caddyhttp"
+	_ "github.com/caddyserver/caddy/v2/modules/caddyhttp/rewrite" // handle_path
 
 	"verif/harness/internal/core"
 )
@@ -49,8 +50,15 @@ func patTokByte(c byte) bool {
 	return isAlnum(c) || strings.IndexByte("./*_-%?[]^~:@+=,;!$&()", c) >= 0
 }
 
+func trimScheme(key string) string {
+	if strings.HasPrefix(key, "http://") {
+		return key[len("http://"):]
+	}
+	return strings.TrimPrefix(key, "https://")
+}
+
 func siteKeyOK(key string) bool {
-	rest := strings.TrimPrefix(key, "http://")
+	rest := trimScheme(key)
 	hp, path := rest, ""
 	if i := strings.IndexByte(rest, '/'); i >= 0 {
 		hp, path = rest[:i], rest[i:]
@@ -68,7 +76,7 @@ func siteKeyOK(key string) bool {
 			return false
 		}
 		n, _ := strconv.Atoi(port)
-		if n < 1 || n > 65535 || (strings.HasPrefix(key, "http://") && n == 443) {
+		if n < 1 || n > 65535 || (strings.HasPrefix(key, "http://") && n == 443) || (strings.HasPrefix(key, "https://") && n == 80) {
 			return false
 		}
 	}
@@ -92,7 +100,7 @@ func cfTokensOK(mode string, hosts, pats []string) bool {
 	switch mode {
 	case "none", "star":
 		return len(hosts) == 0 && len(pats) == 0
-	case "implicit":
+	case "implicit", "handle", "handlepath":
 		return len(hosts) == 0 && len(pats) == 1 && strings.HasPrefix(pats[0], "/")
 	case "named":
 		return len(hosts)+len(pats) > 0
@@ -109,6 +117,15 @@ func caddyfileFor(key, mode string, hosts, pats []string) string {
 		tok = "* "
 	case "implicit":
 		tok = pats[0] + " "
+	case "handle", "handlepath":
+		d := "handle"
+		if mode == "handlepath" {
+			d = "handle_path"
+		} else if len(pats[0])%2 == 0 {
+			d = "route"
+		}
+		sb.WriteString("\t" + d + " " + pats[0] + " {\n\t\trespond \"hit\"\n\t}\n}\n")
+		return sb.String()
 	case "named":
 		sb.WriteString("\t@m {\n")
 		if len(hosts) > 0 {
@@ -153,7 +170,8 @@ func implSite(cf, host string, u *url.URL) string {
 			return provErr(err)
 		}
 		h := rl.Compile(caddyhttp.HandlerFunc(func(http.ResponseWriter, *http.Request) error { return nil }))
-		r := &http.Request{Method: "GET", Host: host, URL: u, Header: http.Header{}, RemoteAddr: "192.0.2.1:1234",
+		uc := *u // handlers (handle_path's rewrite) change the URL in place
+		r := &http.Request{Method: "GET", Host: host, URL: &uc, Header: http.Header{}, RemoteAddr: "192.0.2.1:1234",
 			Proto: "HTTP/1.1", ProtoMajor: 1, ProtoMinor: 1}
 		r = r.WithContext(context.Background())
 		w := httptest.NewRecorder()
@@ -175,7 +193,7 @@ func runSite(line string, f []string) core.Outcome {
 	p, e4 := core.UnHex(f[6])
 	e, e5 := core.UnHex(f[7])
 	if e0 != nil || e1 != nil || e2 != nil || e3 != nil || e4 != nil || e5 != nil ||
-		(mode != "none" && mode != "star" && mode != "implicit" && mode != "named") {
+		(mode != "none" && mode != "star" && mode != "implicit" && mode != "named" && mode != "handle" && mode != "handlepath") {
 		return core.Outcome{Impl: "bad-op"}
 	}
 	if !(siteKeyOK(key) && cfTokensOK(mode, hosts, pats) && isASCII(h) && isASCII(p) && isASCII(e)) {
@@ -191,7 +209,7 @@ func runSite(line string, f []string) core.Outcome {
 	if strings.Contains(key, ":") {
 		o.Tags = append(o.Tags, "cfsite:key-has-port-or-scheme")
 	}
-	if strings.Contains(strings.TrimPrefix(key, "http://"), "/") {
+	if strings.Contains(trimScheme(key), "/") {
 		o.Tags = append(o.Tags, "cfsite:key-has-path")
 	}
 	if key != asciiLower(key) {
@@ -206,8 +224,20 @@ func runSite(line string, f []string) core.Outcome {
 		}
 	}
 	rng := lineRand(line)
+	// ---- every directive that takes the path token guards its block alike: handle_path (which
+	// strips a prefix afterwards), handle / route and the implicit matcher of a directive
+	if mode == "handlepath" || mode == "handle" || mode == "implicit" {
+		for _, m2 := range []string{"handlepath", "handle", "implicit"} {
+			if m2 == mode {
+				continue
+			}
+			if got := implSite(caddyfileFor(key, m2, hosts, pats), h, u); got != base {
+				fail("cfsite-path-token-directives-disagree", fmt.Sprintf("site %q, token %q, Host %q, path %q: as %s -> %s, as %s -> %s", key, pats[0], h, e, mode, base, m2, got))
+			}
+		}
+	}
 	// ---- the spelling of the site key (letter case of the host, port) never matters
-	rest := strings.TrimPrefix(key, "http://")
+	rest := trimScheme(key)
 	hp, kpath := rest, ""
 	if i := strings.IndexByte(rest, '/'); i >= 0 {
 		hp, kpath = rest[:i], rest[i:]
@@ -217,7 +247,7 @@ func runSite(line string, f []string) core.Outcome {
 		khost = hp[:i]
 	}
 	if khost != "" {
-		for _, k2 := range []string{flipCase(rng, khost, 0) + kpath, khost + ":8080" + kpath, flipCase(rng, khost, 1) + ":1" + kpath, "http://" + khost + kpath} {
+		for _, k2 := range []string{flipCase(rng, khost, 0) + kpath, khost + ":8080" + kpath, flipCase(rng, khost, 1) + ":1" + kpath, "http://" + khost + kpath, "https://" + khost + kpath, "https://" + khost + ":8443" + kpath} {
 			if k2 == key {
 				continue
 			}
@@ -277,18 +307,18 @@ func genSiteCase(rng *core.Rand) string {
 	case 0, 1:
 		key += ":" + rng.Pick([]string{"80", "8080", "443", "1", "65535", "8443"})
 	case 2:
-		key = "http://" + key
+		key = rng.Pick([]string{"http://", "https://"}) + key
 		if rng.Chance(1, 2) || host == "" {
-			key += ":" + rng.Pick([]string{"80", "8080", "9000"})
+			key += ":" + rng.Pick([]string{"8080", "9000", "8443"})
 		}
 	}
-	if host == "" && !strings.Contains(key, ":") {
+	if host == "" && !strings.Contains(trimScheme(key), ":") {
 		key = ":8080"
 	}
 	if rng.Chance(1, 8) {
 		key += rng.Pick([]string{"/foo*", "/Foo/*", "/", "/a/b", "/api*", "/x%2fy/*"})
 	}
-	mode := rng.Pick([]string{"none", "star", "implicit", "implicit", "named", "named", "named"})
+	mode := rng.Pick([]string{"none", "star", "implicit", "implicit", "named", "named", "named", "handle", "handlepath", "handlepath"})
 	var hosts, pats []string
 	pickPat := func() string {
 		for {
@@ -299,7 +329,7 @@ func genSiteCase(rng *core.Rand) string {
 		}
 	}
 	switch mode {
-	case "implicit":
+	case "implicit", "handle", "handlepath":
 		for {
 			p := pickPat()
 			if strings.HasPrefix(p, "/") {
@@ -338,8 +368,8 @@ func genSiteCase(rng *core.Rand) string {
 	}
 	rh = spellHost(rng, rh)
 	src := pats
-	if i := strings.IndexByte(strings.TrimPrefix(key, "http://"), '/'); i >= 0 && (len(src) == 0 || rng.Chance(1, 2)) {
-		src = append([]string{}, strings.TrimPrefix(key, "http://")[i:])
+	if i := strings.IndexByte(trimScheme(key), '/'); i >= 0 && (len(src) == 0 || rng.Chance(1, 2)) {
+		src = append([]string{}, trimScheme(key)[i:])
 	}
 	plain := "/"
 	if len(src) > 0 {
